@@ -1082,8 +1082,12 @@ fn part4(cx: &Cx) {
         ("non-object", b"\"{a}\"".to_vec()),
         ("non-object", b"true".to_vec()),
         ("non-object", b"null".to_vec()),
+        ("array-as-request", b"[\"{a}\"]".to_vec()),
+        ("array-as-request", b"[\"{a}\",\"A\",{\"a\":1},{\"k\":\"v\"}]".to_vec()),
+        ("array-as-request", b"[[\"{a}\"]]".to_vec()),
+        ("array-as-request", format!("[{q}}},[\"{{b}}\"]]").into_bytes()),
         ("batch-of-non-objects", b"[1]".to_vec()),
-        ("batch-of-non-objects", b"[[]]".to_vec()),
+        ("array-as-request", b"[[]]".to_vec()),
         ("batch-of-non-objects", b"[null]".to_vec()),
         ("batch-of-non-objects", format!("[{q}}},1]").into_bytes()),
         ("batch-of-non-objects", format!("[{q}}},[{q}}}]]").into_bytes()),
@@ -1119,7 +1123,7 @@ fn part4(cx: &Cx) {
         if (*kind == "not-json" || *kind == "trailing-garbage" || *kind == "invalid-utf8" || *kind == "empty-body") && json_valid(body) {
             cx.machinery_error(format!("malformed menu entry is valid JSON: {}", String::from_utf8_lossy(body)));
         }
-        if (*kind == "empty-batch" || *kind == "non-object" || *kind == "batch-of-non-objects" || *kind == "wrong-member-type") && !json_valid(body) {
+        if (*kind == "empty-batch" || *kind == "array-as-request" || *kind == "non-object" || *kind == "batch-of-non-objects" || *kind == "wrong-member-type") && !json_valid(body) {
             cx.machinery_error(format!("structural menu entry is not JSON: {}", String::from_utf8_lossy(body)));
         }
         for (seam, ct) in json_seams() {
